@@ -2,6 +2,7 @@ package gen
 
 import (
 	"fmt"
+	"os"
 	"go/ast"
 	"go/constant"
 	"go/token"
@@ -462,27 +463,102 @@ func (b *bounds) lenAlternatives(e ast.Expr) []string {
 	return out
 }
 
+// minOperands: the operands when e is a minimum: min(a, b), a moq function returning the smaller of two
+// ints, or a local written `n := a; if n > b { n = b }` (read after that statement, never written again).
+func (b *bounds) minOperands(e ast.Expr) ([]ast.Expr, bool) {
+	if id, ok := ast.Unparen(e).(*ast.Ident); ok {
+		if ops, ok := b.clampIf(id); ok {
+			return ops, true
+		}
+	}
+	call, ok := b.unfold(e).(*ast.CallExpr)
+	if !ok {
+		return nil, false
+	}
+	if id, ok := ast.Unparen(call.Fun).(*ast.Ident); ok {
+		if bi, ok := b.info.Uses[id].(*types.Builtin); ok && bi.Name() == "min" {
+			return call.Args, true
+		}
+	}
+	if fn, ok := typeutil.Callee(b.info, call).(*types.Func); ok && b.prog.IsMoqPkg(fn.Pkg()) && isMinFunc(b.prog, fn) {
+		return call.Args, true
+	}
+	return nil, false
+}
+
+func (b *bounds) clampIf(id *ast.Ident) ([]ast.Expr, bool) {
+	v, _ := b.info.ObjectOf(id).(*types.Var)
+	if v == nil || v.IsField() || len(b.assigns[v]) != 2 || b.assigns[v][0] == nil || b.assigns[v][1] == nil {
+		return nil, false
+	}
+	def, ok0 := b.anodes[v][0].(*ast.AssignStmt)
+	set, ok1 := b.anodes[v][1].(*ast.AssignStmt)
+	if !ok0 || !ok1 || def.Tok != token.DEFINE || set.Tok != token.ASSIGN || len(set.Lhs) != 1 {
+		return nil, false
+	}
+	var is *ast.IfStmt
+	var holder *ast.BlockStmt
+	for _, enc := range enclosing(b.fd.Body, set) {
+		if i, ok := enc.(*ast.IfStmt); ok && i.Else == nil && i.Init == nil && len(i.Body.List) == 1 && i.Body.List[0] == ast.Stmt(set) {
+			is = i
+		}
+	}
+	if is == nil {
+		return nil, false
+	}
+	ast.Inspect(b.fd.Body, func(n ast.Node) bool {
+		if bl, ok := n.(*ast.BlockStmt); ok {
+			for _, st := range bl.List {
+				if st == ast.Stmt(is) {
+					holder = bl
+				}
+			}
+		}
+		return true
+	})
+	// the definition precedes the statement in the same block, the read follows it inside that block
+	if holder == nil || !within(holder, def) || !within(holder, id) || def.End() > is.Pos() || id.Pos() < is.End() {
+		return nil, false
+	}
+	direct := false
+	for _, st := range holder.List {
+		if st == ast.Stmt(def) {
+			direct = true
+		}
+	}
+	if !direct {
+		return nil, false
+	}
+	cb, ok := ast.Unparen(is.Cond).(*ast.BinaryExpr)
+	if !ok {
+		return nil, false
+	}
+	isV := func(e ast.Expr) bool {
+		i, ok := ast.Unparen(e).(*ast.Ident)
+		return ok && b.info.ObjectOf(i) == v
+	}
+	limit := set.Rhs[0]
+	switch {
+	case (cb.Op == token.GTR || cb.Op == token.GEQ) && isV(cb.X) && b.norm(cb.Y) == b.norm(limit):
+	case (cb.Op == token.LSS || cb.Op == token.LEQ) && isV(cb.Y) && b.norm(cb.X) == b.norm(limit):
+	default:
+		return nil, false
+	}
+	return []ast.Expr{b.assigns[v][0], limit}, true
+}
+
 // upperTerms: terms T with v < T for every value of e ≤ the given expression: e itself,
 // both operands of a min, the minuend of `T - c` (c ≥ 0).
 func (b *bounds) upperTerms(e ast.Expr) []string {
 	out := b.lenAlternatives(e)
+	if ops, ok := b.minOperands(e); ok {
+		for _, a := range ops {
+			out = append(out, b.upperTerms(a)...)
+		}
+		return out
+	}
 	u := b.unfold(e)
 	switch x := u.(type) {
-	case *ast.CallExpr:
-		isMin := false
-		if id, ok := ast.Unparen(x.Fun).(*ast.Ident); ok {
-			if bi, ok := b.info.Uses[id].(*types.Builtin); ok && bi.Name() == "min" {
-				isMin = true
-			}
-		}
-		if fn, ok := typeutil.Callee(b.info, x).(*types.Func); ok && b.prog.IsMoqPkg(fn.Pkg()) && isMinFunc(b.prog, fn) {
-			isMin = true
-		}
-		if isMin {
-			for _, a := range x.Args {
-				out = append(out, b.upperTerms(a)...)
-			}
-		}
 	case *ast.BinaryExpr:
 		switch x.Op {
 		case token.SUB:
@@ -1276,7 +1352,7 @@ func isGoTypesMethod(info *types.Info, e ast.Expr, recvType, name string) (*ast.
 // lastElemOK: x[len(x)-c] where the length is at least c: by how x was produced, or because the site is
 // only reached for a variadic signature whose parameter count is the length of x.
 func (b *bounds) lastElemOK(f *cfgx.Func, x *ast.IndexExpr) (bool, string) {
-	be, ok := ast.Unparen(x.Index).(*ast.BinaryExpr)
+	be, ok := b.unfold(x.Index).(*ast.BinaryExpr)
 	if !ok || be.Op != token.SUB {
 		return false, ""
 	}
@@ -1429,44 +1505,197 @@ func (b *bounds) nonNeg(e ast.Expr, depth int) bool {
 		}
 	case *ast.Ident:
 		v, _ := b.info.ObjectOf(x).(*types.Var)
-		if v == nil || len(b.assigns[v]) != 0 || b.fd.Type.Params == nil {
+		if v == nil || v.IsField() || (v.Pkg() != nil && v.Parent() == v.Pkg().Scope()) {
 			return false
 		}
-		pi, k := -1, 0
-		for _, fl := range b.fd.Type.Params.List {
-			for _, nm := range fl.Names {
-				if b.info.Defs[nm] == v {
-					pi = k
-				}
-				k++
-			}
-		}
-		self, _ := b.info.Defs[b.fd.Name].(*types.Func)
-		if pi < 0 || self == nil || self.Exported() {
+		if bt, ok := v.Type().Underlying().(*types.Basic); !ok || bt.Info()&types.IsInteger == 0 {
 			return false
 		}
-		key := nonNegKey{self, pi}
-		if st, seen := nonNegMemo[key]; seen {
-			return st // in progress counts as true: induction hypothesis
-		}
-		nonNegMemo[key] = true
-		calls := staticCallsOf(b.prog, self)
-		ok := len(calls) > 0
-		for _, cs := range calls {
-			if pi >= len(cs.call.Args) {
-				ok = false
-				break
+		if len(b.assigns[v]) != 0 {
+			// every write keeps it non-negative (claims in progress count as true: induction over the writes)
+			if st, seen := nonNegVarMemo[v]; seen {
+				return st
 			}
-			cb := newBounds(b.prog, cs.info, cs.fd)
-			if !cb.nonNeg(cs.call.Args[pi], depth+1) {
-				ok = false
-				break
+			mark := len(nonNegJournal)
+			nonNegVarMemo[v] = true
+			nonNegJournal = append(nonNegJournal, func() { delete(nonNegVarMemo, v) })
+			ok := b.writesNonNeg(v, depth+1) && (!b.isParam(v) || b.paramNonNeg(v, depth+1))
+			if !ok {
+				nonNegRollback(mark)
 			}
+			nonNegVarMemo[v] = ok
+			return ok
 		}
-		nonNegMemo[key] = ok
-		return ok
+		return b.paramNonNeg(v, depth)
 	}
 	return false
+}
+
+func (b *bounds) isParam(v *types.Var) bool {
+	if b.fd.Type.Params == nil {
+		return false
+	}
+	for _, fl := range b.fd.Type.Params.List {
+		for _, nm := range fl.Names {
+			if b.info.Defs[nm] == v {
+				return true
+			}
+		}
+	}
+	return false
+}
+
+// writesNonNeg: every write of the integer variable stores a non-negative value: x++, x += e and x = e
+// with e non-negative, a zero-valued declaration, the key of a range over a sequence, or a result of a
+// moq function all of whose returns are non-negative there.
+func (b *bounds) writesNonNeg(v *types.Var, depth int) bool {
+	for i, a := range b.assigns[v] {
+		if a != nil {
+			if st, ok := b.anodes[v][i].(*ast.AssignStmt); ok && st.Tok != token.ASSIGN && st.Tok != token.DEFINE {
+				return false
+			}
+			if !b.nonNeg(a, depth) {
+				return false
+			}
+			continue
+		}
+		switch st := b.anodes[v][i].(type) {
+		case *ast.IncDecStmt:
+			if st.Tok != token.INC {
+				return false
+			}
+		case *ast.ValueSpec:
+			if len(st.Values) != 0 {
+				return false
+			}
+		case *ast.RangeStmt:
+			id, _ := st.Key.(*ast.Ident)
+			if id == nil || b.info.ObjectOf(id) != v {
+				return false
+			}
+			switch b.info.TypeOf(st.X).Underlying().(type) {
+			case *types.Slice, *types.Array, *types.Basic:
+			default:
+				return false
+			}
+		case *ast.AssignStmt:
+			if len(st.Rhs) == 1 && len(st.Lhs) == 1 {
+				if st.Tok != token.ADD_ASSIGN && st.Tok != token.MUL_ASSIGN || !b.nonNeg(st.Rhs[0], depth) {
+					return false
+				}
+				continue
+			}
+			call, _ := ast.Unparen(st.Rhs[0]).(*ast.CallExpr)
+			if call == nil || len(st.Rhs) != 1 {
+				return false
+			}
+			ri := -1
+			for k, l := range st.Lhs {
+				if id, ok := ast.Unparen(l).(*ast.Ident); ok && b.info.ObjectOf(id) == v {
+					ri = k
+				}
+			}
+			fn, _ := typeutil.Callee(b.info, call).(*types.Func)
+			if ri < 0 || fn == nil || !b.prog.IsMoqPkg(fn.Pkg()) || !nonNegResult(b.prog, fn.Origin(), ri, depth) {
+				return false
+			}
+		default:
+			return false
+		}
+	}
+	return true
+}
+
+var nonNegVarMemo = map[*types.Var]bool{}
+var nonNegResMemo = map[nonNegKey]bool{}
+
+// nonNegResult: every return of fn gives a non-negative value for result ri.
+func nonNegResult(prog *load.Program, fn *types.Func, ri, depth int) bool {
+	key := nonNegKey{fn, ri}
+	if st, seen := nonNegResMemo[key]; seen {
+		return st
+	}
+	d := prog.Decl(fn)
+	if d == nil || d.Body == nil {
+		return false
+	}
+	mark := len(nonNegJournal)
+	nonNegResMemo[key] = true
+	nonNegJournal = append(nonNegJournal, func() { delete(nonNegResMemo, key) })
+	cb := newBounds(prog, prog.Info(fn.Pkg()), d)
+	okAll, n := true, 0
+	ast.Inspect(d.Body, func(x ast.Node) bool {
+		if _, isLit := x.(*ast.FuncLit); isLit {
+			return false
+		}
+		if rs, ok := x.(*ast.ReturnStmt); ok {
+			n++
+			if ri >= len(rs.Results) || !cb.nonNeg(rs.Results[ri], depth) {
+				okAll = false
+			}
+		}
+		return true
+	})
+	if !(okAll && n > 0) {
+		nonNegRollback(mark)
+	}
+	nonNegResMemo[key] = okAll && n > 0
+	return okAll && n > 0
+}
+
+// paramNonNeg: v is a parameter of an unexported function and every static call passes a non-negative value.
+func (b *bounds) paramNonNeg(v *types.Var, depth int) bool {
+	if b.fd.Type.Params == nil {
+		return false
+	}
+	pi, k := -1, 0
+	for _, fl := range b.fd.Type.Params.List {
+		for _, nm := range fl.Names {
+			if b.info.Defs[nm] == v {
+				pi = k
+			}
+			k++
+		}
+	}
+	self, _ := b.info.Defs[b.fd.Name].(*types.Func)
+	if pi < 0 || self == nil || self.Exported() {
+		return false
+	}
+	key := nonNegKey{self, pi}
+	if st, seen := nonNegMemo[key]; seen {
+		return st // in progress counts as true: induction hypothesis
+	}
+	mark := len(nonNegJournal)
+	nonNegMemo[key] = true
+	nonNegJournal = append(nonNegJournal, func() { delete(nonNegMemo, key) })
+	calls := staticCallsOf(b.prog, self)
+	ok := len(calls) > 0
+	for _, cs := range calls {
+		if pi >= len(cs.call.Args) {
+			ok = false
+			break
+		}
+		cb := newBounds(b.prog, cs.info, cs.fd)
+		if !cb.nonNeg(cs.call.Args[pi], depth+1) {
+			ok = false
+			break
+		}
+	}
+	if !ok {
+		nonNegRollback(mark)
+	}
+	nonNegMemo[key] = ok
+	return ok
+}
+
+// Facts derived while a claim was only assumed are forgotten when the claim turns out false.
+var nonNegJournal []func()
+
+func nonNegRollback(mark int) {
+	for _, undo := range nonNegJournal[mark:] {
+		undo()
+	}
+	nonNegJournal = nonNegJournal[:mark]
 }
 
 type nonNegKey struct {
@@ -1476,50 +1705,112 @@ type nonNegKey struct {
 
 var nonNegMemo = map[nonNegKey]bool{}
 
-// tailSlice: x[len(x)-n:] with 0 <= n <= len(x).
+// tailSlice: x[L:] with 0 <= L <= len(x) where L is len(x)-n (possibly through a local, possibly clamped
+// with max(.., 0)): n must be non-negative (L <= len(x)) and L non-negative — because n is a minimum that
+// includes len(x), because of the clamp, or because an enclosing condition says so (L > 0, len(x) > n).
 func (b *bounds) tailSlice(x *ast.SliceExpr) (bool, string) {
 	if x.High != nil || x.Slice3 || x.Low == nil {
-		return false, ""
+		return dbgF(1), ""
 	}
-	be, ok := ast.Unparen(x.Low).(*ast.BinaryExpr)
-	if !ok || be.Op != token.SUB {
-		return false, ""
-	}
-	lx, ok := b.lenOperand(be.X)
-	if !ok || b.norm(lx) != b.norm(x.X) {
-		return false, ""
-	}
-	// n <= len(x): n is min(len(x), _) ; n >= 0
-	upper := false
-	for _, t := range b.upperTermsIncl(be.Y) {
-		if t == "len("+b.norm(x.X)+")" {
-			upper = true
+	low := b.unfold(x.Low)
+	clamped := false
+	if call, ok := low.(*ast.CallExpr); ok && len(call.Args) == 2 {
+		if id, ok := ast.Unparen(call.Fun).(*ast.Ident); ok {
+			if bi, ok := b.info.Uses[id].(*types.Builtin); ok && bi.Name() == "max" {
+				for i, a := range call.Args {
+					if c, ok := b.constInt(a); ok && c == 0 {
+						low = b.unfold(call.Args[1-i])
+						clamped = true
+					}
+				}
+			}
 		}
 	}
-	if upper && b.nonNeg(be.Y, 0) {
-		return true, "the slice starts at len(x)-n with 0 <= n <= len(x): n is a minimum that includes len(x) and is never negative"
+	be, ok := ast.Unparen(low).(*ast.BinaryExpr)
+	if !ok || be.Op != token.SUB {
+		return dbgF(2), ""
 	}
-	return false, ""
+	// len(x) - a - b ...: every subtrahend must be non-negative
+	first := ast.Expr(be)
+	var subs []ast.Expr
+	for {
+		sb, ok := ast.Unparen(first).(*ast.BinaryExpr)
+		if !ok || sb.Op != token.SUB {
+			break
+		}
+		subs = append(subs, sb.Y)
+		first = sb.X
+	}
+	lx, ok := b.lenOperand(first)
+	if !ok || b.norm(lx) != b.norm(x.X) {
+		return dbgF(3), ""
+	}
+	for _, sub := range subs {
+		if !b.nonNeg(sub, 0) {
+			return dbgF(4), ""
+		}
+	}
+	if len(subs) > 1 {
+		// only the clamp can keep a chain non-negative here
+		if clamped {
+			return true, "the slice starts at max(len(x)-a-b, 0) with a, b never negative"
+		}
+		return dbgF(5), ""
+	}
+	// L >= 0
+	nonNegL := clamped
+	if !nonNegL {
+		for _, t := range b.upperTermsIncl(be.Y) {
+			if t == "len("+b.norm(x.X)+")" {
+				nonNegL = true
+			}
+		}
+	}
+	if !nonNegL {
+		lowTerm := b.norm(low)
+		for _, enc := range enclosing(b.fd.Body, x) {
+			is, ok := enc.(*ast.IfStmt)
+			if !ok || !within(is.Body, x) {
+				continue
+			}
+			for _, c := range conjuncts(is.Cond) {
+				cb, ok := ast.Unparen(c).(*ast.BinaryExpr)
+				if !ok {
+					continue
+				}
+				// L > 0, L >= 0, 0 < L ...
+				if (cb.Op == token.GTR || cb.Op == token.GEQ) && b.norm(cb.X) == lowTerm {
+					if k, ok := b.constInt(cb.Y); ok && k >= 0 {
+						nonNegL = true
+					}
+				}
+				if (cb.Op == token.LSS || cb.Op == token.LEQ) && b.norm(cb.Y) == lowTerm {
+					if k, ok := b.constInt(cb.X); ok && k >= 0 {
+						nonNegL = true
+					}
+				}
+				// len(x) > n, len(x) >= n, n < len(x) ...
+				if (cb.Op == token.GTR || cb.Op == token.GEQ) && b.norm(cb.X) == b.norm(be.X) && b.norm(cb.Y) == b.norm(be.Y) {
+					nonNegL = true
+				}
+				if (cb.Op == token.LSS || cb.Op == token.LEQ) && b.norm(cb.Y) == b.norm(be.X) && b.norm(cb.X) == b.norm(be.Y) {
+					nonNegL = true
+				}
+			}
+		}
+	}
+	if nonNegL {
+		return true, "the slice starts at L = len(x)-n with n never negative (L <= len(x)) and L never negative (a minimum that includes len(x), a clamp with max(.., 0), or an enclosing condition)"
+	}
+	return dbgF(6), ""
 }
 
 // upperTermsIncl: terms T with e <= T (inclusive): e itself and, for a minimum, its operands.
 func (b *bounds) upperTermsIncl(e ast.Expr) []string {
 	out := []string{b.norm(e)}
-	u := b.unfold(e)
-	if call, ok := u.(*ast.CallExpr); ok {
-		isMin := false
-		if id, ok := ast.Unparen(call.Fun).(*ast.Ident); ok {
-			if bi, ok := b.info.Uses[id].(*types.Builtin); ok && bi.Name() == "min" {
-				isMin = true
-			}
-		}
-		if fn, ok := typeutil.Callee(b.info, call).(*types.Func); ok && b.prog.IsMoqPkg(fn.Pkg()) && isMinFunc(b.prog, fn) {
-			isMin = true
-		}
-		if isMin {
-			for _, a := range call.Args {
-				out = append(out, b.upperTermsIncl(a)...)
-			}
+	if ops, ok := b.minOperands(e); ok {
+		for _, a := range ops {
+			out = append(out, b.upperTermsIncl(a)...)
 		}
 	}
 	return out
@@ -1615,6 +1906,13 @@ func (b *bounds) origins(e ast.Expr, depth int) []origin {
 			}
 			fn, _ := b.info.Defs[b.fd.Name].(*types.Func)
 			if (pi >= 0 || pi == -2) && fn != nil && !fn.Exported() {
+				// a parameter that is being traced already (recursion) adds no origin of its own
+				key := nonNegKey{fn, pi}
+				if originsBusy[key] {
+					return nil
+				}
+				originsBusy[key] = true
+				defer delete(originsBusy, key)
 				var out []origin
 				n := 0
 				for _, cs := range staticCallsOf(b.prog, fn) {
@@ -1641,6 +1939,8 @@ func (b *bounds) origins(e ast.Expr, depth int) []origin {
 	}
 	return []origin{{e, b.info}}
 }
+
+var originsBusy = map[nonNegKey]bool{}
 
 // assertionOK: unchecked assertions that cannot fail for a reason visible in the types or the control flow.
 func (b *bounds) assertionOK(f *cfgx.Func, ta *ast.TypeAssertExpr) (bool, string) {
@@ -2171,4 +2471,11 @@ func (b *bounds) okGuardedTableLookup(st *ast.AssignStmt, use *ast.Ident) bool {
 		}
 	}
 	return found && okAll
+}
+
+func dbgF(n int) bool {
+	if os.Getenv("MOQLINT_DEBUG") != "" {
+		fmt.Fprintln(os.Stderr, "tailSlice exit", n)
+	}
+	return false
 }
